@@ -556,10 +556,21 @@ func checkCLI(c Case) (out string, err error) {
 	}
 	// the command line tool has no flag for these
 	o := c.Opts
-	o.HTMLTemplateDelims = templateTypes[c.CLIType] // zero for plain html
+	o.HTMLTemplateDelims = [2]string{}
 	o.CSSKeepCSS2 = false
 	o.CSSInline, o.SVGInline = false, false
 	lib, lerr := minifyKind(c.Kind, o, c.Src)
+	if d, ok := templateTypes[c.CLIType]; ok {
+		// the registry of the command: text/html without delimiters (the text of an iframe goes there, C11), the template
+		// type is the same HTML minifier with that type's delimiters
+		opts := o.Build()
+		m := mk.Full(opts)
+		h := *opts.HTML
+		h.TemplateDelims = d
+		m.Add("text/x-template", &h)
+		b, e := mk.RunM(m, "text/x-template", []byte(c.Src))
+		lib, lerr = string(b), e
+	}
 	dir, e := os.MkdirTemp("", "c16cli")
 	if e != nil {
 		return "", fmt.Errorf("HARNESS: %v", e)
